@@ -306,12 +306,12 @@ class Constraints:
                 #TODO: account for non-spherical precipitates
                 dVi = PBMs[p].PSD * PBMs[p].PSDsize**2 * 0.5 * (growths[p][1:] + growths[p][:-1])
                 dVi[dVi < 0] = 0
-                dV = VmAlpha / VmBeta[p] * (GB[p].areaFactor * np.sum(dVi) + GB[p].volumeFactor * nucRate[n,p] * nucRadius[n,p]**3)
+                dV[p] = VmAlpha / VmBeta[p] * (GB[p].areaFactor * np.sum(dVi) + GB[p].volumeFactor * nucRate[n,p] * nucRadius[n,p]**3)
 
             dtVol = dtMax * np.ones(len(phases))
             for p in range(len(phases)):
-                if dV != 0:
-                    dtVol[p] = self.maxVolumeChange / (2 * np.abs(dV))
+                if dV[p] != 0:
+                    dtVol[p] = self.maxVolumeChange / (2 * np.abs(dV[p]))
             return np.amin(dtVol)
         else:
             return dtMax
